@@ -9,34 +9,34 @@ import checks_def
 HERE = os.path.dirname(os.path.abspath(__file__))
 
 LEVEL = {
-    "C01": ("per-key Wing-Gong-Lowe linearizability check of recorded round histories + value self-validation",
+    "C01": ("per-key Wing-Gong-Lowe linearizability check of recorded round histories + value self-validation; two-thread micro-races; preemption explorer (get preempted at every shared access by write bursts; put/remove preempted in their lock-free part, sequential-equivalence oracle)",
             "Held on the recorded histories: thousands of short rounds (2..16 threads on 1..6 hot keys, five tree-shape scenarios) stamped at the client boundary; every key's sub-history has a linearisation; "
             "no null/torn/foreign value. Says nothing about interleavings never produced.", "5/C01"),
     "C02": ("differential testing against std::map after every call + ASan/UBSan",
             "Every status and value of PRNG operation programs over adversarial binary keys equals the map model; emptied storages behave like fresh ones; structural walker after every batch.", "5/C02"),
     "C03": ("differential testing of scan against the model's interval content", "All scans explored (endpoint classes x kinds x limits x directions x tree shapes) returned exactly the model's answer, and exactly the documented argument errors.", "5/C03"),
-    "C04": ("offline check of scan results against exactly known per-key write histories (ownership), rules a-d",
+    "C04": ("offline check of scan results against exactly known per-key write histories (ownership), rules a-d; micro-races; preemption explorer for scans (stable keys, bindings over time)",
             "No scan observed returned a value that was never current during the scan, lost a key that was present throughout, or broke order/interval; scans overlapped splits, unlinks and layer-root changes.", "5/C04"),
-    "C05": ("direct oracle: read, insert absent key from another session, compare every recorded (version,node) pair",
+    "C05": ("direct oracle: read, insert absent key from another session, compare every recorded (version,node) pair; the same oracle on reads taken concurrently (micro-races) and on reads preempted at every shared access (explorer), incl. get-miss with checked version",
             "For all explored (read, absent key) pairs the insert made at least one recorded pair stale; scans/get-miss never returned an empty set.", "5/C05"),
-    "C06": ("round classification fresh-and-complete / stale / violation after insert-only races", "No round found with all pairs fresh and a key set different from the keys present.", "5/C06"),
-    "C07": ("hold-table monitor on the interposed allocator + content re-validation + ASan",
+    "C06": ("round classification fresh-and-complete / stale / violation after insert-only races; micro-races; preemption explorer (set fresh => burst's inserts are in the result)", "No round found with all pairs fresh and a key set different from the keys present.", "5/C06"),
+    "C07": ("hold-table monitor on the interposed allocator + content re-validation + ASan; collapse micro-races under ASan",
             "No block was released while a session that had obtained a pointer into it was still open, over runs with >= thousands of GC-thread releases during open sessions and injected stalls in enter().", "5/C07"),
-    "C08": ("structural walker + three-way API cross-check at quiescent points", "All quiescent points reached (sequential programs and concurrent churn) were coherent and well formed.", "5/C08"),
-    "C09": ("bounded-progress watchdog + lock monitor (owner table, self-wait) + lock bits at quiescence",
+    "C08": ("structural walker + three-way API cross-check at quiescent points; collapse / root-creation / parent-split micro-races with the walker after every round; writer preemption explorer + walker", "All quiescent points reached (sequential programs and concurrent churn) were coherent and well formed.", "5/C08"),
+    "C09": ("bounded-progress watchdog + lock monitor (owner table, self-wait) + lock bits at quiescence; collapse micro-races on a reused storage; sequential cursor and value workloads as progress-only runs",
             "Every batch finished; no wait-for cycle, leaked lock or self-wait observed; no lock/dirty bit left. Liveness itself is not decidable by observation (restated as bounded progress).", "5/C09"),
-    "C10": ("differential testing of cursors vs model; step-interleaved early_abort oracle; concurrent M4 rules for cursors; insert-vs-version-set rounds",
+    "C10": ("differential testing of cursors vs model; step-interleaved early_abort oracle; concurrent M4 rules for cursors; insert-vs-version-set rounds; micro-races; preemption explorer over whole cursor iterations",
             "All explored cursor iterations matched the model (quiescent) / the write histories (concurrent, single- and multi-layer); early_abort reported every modification of the node under the cursor.", "5/C10"),
     "C11": ("allocation registry balance after fin() over many histories + LeakSanitizer at exit", "0 live library blocks and 0 cursor contexts after every fin(); no double/unknown free or size mismatch.", "5/C11"),
-    "C12": ("before/after border-version maps around every put vs inserted_node_info", "For every explored put the changed-border set equalled {modified_nvp} (+created_nvp iff split); overwrites changed nothing.", "5/C12"),
+    "C12": ("before/after border-version maps around every put vs inserted_node_info; concurrent conservation oracle (version counter deltas == reports) on bursts of puts and on puts preempted in their lock-free part", "For every explored put the changed-border set equalled {modified_nvp} (+created_nvp iff split); overwrites changed nothing.", "5/C12"),
     "C13": ("differential testing against map<name,map>; exactly-one-winner oracle for racing DDL", "All programs and races explored agreed with the model; bystander storages untouched.", "5/C13"),
     "C14": ("shadow ownership table + open counter + offline slot-occupancy intervals, four capacities", "No token shared, capacity never exceeded, no refusal with a provably free slot, begin epoch non-zero while open.", "5/C14"),
     "C15": ("grid round-trip check with registry cross-check; concurrent readers validate self-describing values under overwrite", "Every cell and every concurrent read validated.", "5/C15"),
-    "C16": ("per-cycle measurement script compared with cycle 1 of the same process", "Later cycles showed empty namespace, free slots, epoch progress and reclamation while running, like cycle 1.", "5/C16"),
+    "C16": ("per-cycle measurement script compared with cycle 1 of the same process; lifecycle call that does not return within the stall limit = violation", "Later cycles showed empty namespace, free slots, epoch progress and reclamation while running, like cycle 1.", "5/C16"),
     "C17": ("field-level model on the exhaustive flag/counter-boundary grid + random words; concurrent mutual-exclusion and stable-reader monitor",
             "Grid is enumerated completely (finite); concurrent part is exploration.", "5/C17"),
     "C18": ("reference-order comparison at every comparison site on hand-built nodes; exhaustive pairs over a reduced universe", "All pairs/triples/sites agreed with bytewise order.", "5/C18"),
-    "C19": ("vector model after every permutation operation (all orderings for small n); publication log vs reader samples", "All states/operations agreed; readers only saw published words.", "5/C19"),
+    "C19": ("vector model after every permutation operation (all orderings for small n); publication log vs reader samples; lookups/scans of never-removed keys of one border under permutation churn and same-key insert races", "All states/operations agreed; readers only saw published words.", "5/C19"),
     "C20": ("independent census by walker + allocation registry vs mem_usage", "All snapshots agreed; used<=reserved; used follows slot count.", "5/C20"),
 }
 
